@@ -281,14 +281,24 @@ jose_jwe_enc_cek_io(jose_cfg_t *cfg, json_t *jwe, const json_t *cek,
     const jose_hook_alg_t *alg = NULL;
     jose_io_auto_t *enc = NULL;
     json_auto_t *prt = NULL;
+    json_auto_t *dec = NULL;
     const char *hzip = NULL;
     const char *h = NULL;
     const char *k = NULL;
+    json_t *p = NULL;
 
     if (json_unpack(jwe, "{s?{s?s}}", "unprotected", "enc", &h) < 0)
         return NULL;
 
-    if (json_unpack(jwe, "{s?{s?s}}", "protected", "enc", &h) < 0)
+    /* The protected header may already be encoded. */
+    p = json_object_get(jwe, "protected");
+    if (json_is_string(p)) {
+        p = dec = jose_b64_dec_load(p);
+        if (!p)
+            return NULL;
+    }
+
+    if (p && json_unpack(p, "{s?s}", "enc", &h) < 0)
         return NULL;
 
     if (json_unpack((json_t *) cek, "{s?s}", "alg", &k) < 0)
